@@ -20,7 +20,7 @@ RULE = (
 )
 BOUNDS = {
     "quick": "n<=4 all compositions x all injective value assignments (capped 24 per composition) x {id, monomial, Householder}; n=2 all 144 integer matrices; n=3 8 masks x 5 letters x 3 diagonals; n=4 64 masks",
-    "thorough": "n<=5, all assignments, 2 fill rows",
+    "thorough": "n<=6, up to 60 value assignments per composition",
 }
 WALL_BUDGET = {"quick": 300, "thorough": 2400}
 ASSUMPTIONS = ["spectrum oracle: eigvalsh of the complex adjoint (each eigenvalue twice, pairing by reshape)"]
@@ -29,8 +29,8 @@ LET3 = [(1, 0, 0, 0), (0, 1, 0, 0), (0, 0, 1, 0), (0, 0, 0, 1), (1, 1, 0, 0)]
 
 
 def cases(tier, seed):
-    N = 4 if tier == "quick" else 5
-    cap = 24 if tier == "quick" else 10 ** 9
+    N = 4 if tier == "quick" else 6
+    cap = 24 if tier == "quick" else 60
     out = []
     for n in range(1, N + 1):
         for comp in G.compositions(n):
